@@ -59,6 +59,20 @@ def is_pure(e):
     return True
 
 
+FRESH_CALLS = {"zeros", "ones", "empty", "full", "zeros_like", "ones_like", "empty_like", "full_like", "array", "copy", "list", "dict", "set", "bytearray"}
+
+
+def is_fresh_mutable(e):
+    """an expression that builds a new mutable object: substituting it at several places would turn one object into several (views / aliases would be lost)"""
+    if isinstance(e, (ast.List, ast.Dict, ast.Set, ast.ListComp, ast.DictComp, ast.SetComp)):
+        return True
+    if isinstance(e, ast.Call):
+        f = e.func
+        nm = f.id if isinstance(f, ast.Name) else f.attr if isinstance(f, ast.Attribute) else None
+        return nm in FRESH_CALLS
+    return False
+
+
 def is_alias(e):
     """attribute / constant-key subscript chain over a name: denotes the same object every time it is evaluated"""
     while True:
@@ -176,23 +190,68 @@ class _Sub(ast.NodeTransformer):
         return n
 
 
+def _chains(e):
+    """maximal dotted chains read by an expression (a.b.c contributes only 'a.b.c'; a bare name contributes itself)"""
+    out = set()
+
+    def rec(n, top=True):
+        if isinstance(n, ast.Attribute):
+            d = dotted(n)
+            if d:
+                out.add(d)
+                return
+        if isinstance(n, ast.Name):
+            out.add(n.id)
+            return
+        for ch in ast.iter_child_nodes(n):
+            rec(ch)
+    rec(e)
+    return out
+
+
 def _split_unpacking(fn):
-    """a, b = (x, y)  ->  a = x; b = y   when no right-hand side reads a left-hand name (no swap) and every part is pure"""
+    """a, b = x, y  ->  a = x; b = y   when no right-hand side reads something bound earlier in the same statement (no swap); targets may be names or
+    attribute chains (self.a, self.b = ...);   a, b = (f(v) for v in (p, q))  ->  a = f(p); b = f(q)"""
     changed = False
     for s in list(A.walk_local(fn)):
-        if isinstance(s, ast.Assign) and len(s.targets) == 1 and isinstance(s.targets[0], (ast.Tuple, ast.List)) and isinstance(s.value, (ast.Tuple, ast.List)) \
-                and len(s.targets[0].elts) == len(s.value.elts) and all(isinstance(t, ast.Name) for t in s.targets[0].elts) \
-                and not any(isinstance(v, ast.Starred) for v in s.value.elts):
-            lhs = {t.id for t in s.targets[0].elts}
-            if any(lhs & _reads(v) for v in s.value.elts) or not all(is_pure(v) for v in s.value.elts):
-                continue
-            blk = A.block_of(s)
-            if not blk:
-                continue
-            p, f, lst, i = blk
-            new = [ast.copy_location(ast.Assign(targets=[t], value=v), s) for t, v in zip(s.targets[0].elts, s.value.elts)]
-            lst[i:i + 1] = new
-            changed = True
+        if not (isinstance(s, ast.Assign) and len(s.targets) == 1 and isinstance(s.targets[0], (ast.Tuple, ast.List))
+                and all(isinstance(t, ast.Name) or (isinstance(t, ast.Attribute) and dotted(t)) for t in s.targets[0].elts)):
+            continue
+        tg = s.targets[0].elts
+        vals = None
+        v = s.value
+        if isinstance(v, (ast.Tuple, ast.List)) and len(v.elts) == len(tg) and not any(isinstance(x, ast.Starred) for x in v.elts):
+            vals = list(v.elts)
+        elif isinstance(v, (ast.GeneratorExp, ast.ListComp)) and len(v.generators) == 1 and not v.generators[0].ifs and isinstance(v.generators[0].target, ast.Name) \
+                and isinstance(v.generators[0].iter, (ast.Tuple, ast.List)) and len(v.generators[0].iter.elts) == len(tg) \
+                and not any(isinstance(x, ast.Starred) for x in v.generators[0].iter.elts):
+            var = v.generators[0].target.id
+            vals = [A._Subst({var: x}, False).visit(A.clone(v.elt)) for x in v.generators[0].iter.elts]
+        if vals is None:
+            continue
+        ok = True
+        bound = []
+        for t, x in zip(tg, vals):
+            reads = _chains(x)
+            for b in bound:
+                if any(r == b or r.startswith(b + ".") or b.startswith(r + ".") and "." not in r and r != "self" for r in reads):
+                    ok = False
+            if not ok:
+                break
+            bound.append(t.id if isinstance(t, ast.Name) else dotted(t))
+        if not ok:
+            continue
+        blk = A.block_of(s)
+        if not blk:
+            continue
+        p, f, lst, i = blk
+        new = []
+        for t, x in zip(tg, vals):
+            t2 = A.clone(t)
+            t2.ctx = ast.Store()
+            new.append(ast.copy_location(ast.Assign(targets=[t2], value=x), s))
+        lst[i:i + 1] = new
+        changed = True
     if changed:
         ast.fix_missing_locations(fn)
         A_relink(fn)
@@ -262,6 +321,8 @@ def normalize_function(fn, max_rounds=300):
                         break
             if not safe or not mine:
                 continue
+            if len(mine) > 1 and is_fresh_mutable(v) and _escapes(name, fn):
+                continue
             reads = _reads(v)
             ok = True
             for ld, us in mine:
@@ -299,6 +360,26 @@ def normalize_function(fn, max_rounds=300):
         if not changed:
             break
     return changed_any
+
+
+def _escapes(name, fn):
+    """is some view / alias of the object bound to ``name`` created (so that it could be changed without naming it)?  `name.T`, `name[...]`, `name.reshape(..)`
+    etc. bound to another name, iterated, or passed to zip / iter / enumerate; or the bare name bound to another name."""
+    for n in A.walk_local(fn):
+        if isinstance(n, ast.Name) and n.id == name and isinstance(n.ctx, ast.Load):
+            cur, par = n, A.parent(n)
+            while isinstance(par, (ast.Attribute, ast.Subscript)) and par.value is cur and isinstance(par.ctx, ast.Load):
+                cur, par = par, A.parent(par)
+            if isinstance(par, ast.Call) and cur in par.args and isinstance(par.func, ast.Name) and par.func.id in ("zip", "iter", "enumerate", "reversed"):
+                return True
+            if isinstance(par, (ast.For, ast.comprehension)) and getattr(par, "iter", None) is cur and cur is not n:
+                return True
+            if isinstance(par, ast.Assign) and par.value is cur and (cur is n or isinstance(cur, ast.Attribute) and cur.attr == "T" or isinstance(cur, ast.Subscript)) \
+                    and any(isinstance(t, ast.Name) for t in par.targets) and not (isinstance(cur, ast.Subscript) and isinstance(cur.slice, ast.Constant)):
+                # a slice / transpose / the object itself bound to another name is (possibly) a view
+                if cur is n or isinstance(cur, ast.Attribute) or isinstance(cur.slice, (ast.Slice, ast.Tuple)):
+                    return True
+    return False
 
 
 def _order(fn):
